@@ -112,7 +112,8 @@ def teval(t: Term, env: dict):
         return ev(a[0]).get(*[ev(x) for x in a[1:]])
     if op.startswith("meth:") and op[5:] in ("startswith", "endswith", "lower", "upper", "strip", "replace", "split", "hex",
                                                "encode", "decode", "isnumeric", "isdigit", "isdecimal", "isalpha", "isalnum", "count", "find", "join", "zfill", "lstrip", "rstrip",
-                                               "removeprefix", "removesuffix", "title", "capitalize"):
+                                               "removeprefix", "removesuffix", "title", "capitalize", "partition", "rpartition", "rsplit", "splitlines",
+                                               "index", "rfind", "isspace", "islower", "isupper", "casefold", "center", "rjust", "swapcase", "format"):
         try:
             return getattr(ev(a[0]), op[5:])(*[ev(x) for x in a[1:]])
         except Unknown:
@@ -160,6 +161,27 @@ def teval(t: Term, env: dict):
             if all(teval(c, env2) for c in conds.args):
                 vals.append(bool(teval(body, env2)))
         return all(vals) if op == "call:all" else any(vals)
+    if op == "unpack" and len(a) == 3:
+        seq = list(ev(a[0]))
+        if len(seq) != ev(a[2]):
+            raise Unknown("unpack: length mismatch")
+        return seq[ev(a[1])]
+    if op in ("call:re.findall", "call:re.split") and len(a) == 2:
+        import re as _re
+        try:
+            return getattr(_re, op.split(".")[-1])(ev(a[0]), ev(a[1]))
+        except Unknown:
+            raise
+        except Exception as e:
+            raise Unknown(f"{op}: {e}")
+    if op in ("call:re.sub",) and len(a) == 3:
+        import re as _re
+        try:
+            return _re.sub(ev(a[0]), ev(a[1]), ev(a[2]))
+        except Unknown:
+            raise
+        except Exception as e:
+            raise Unknown(f"{op}: {e}")
     if op in ("call:re.match", "call:re.fullmatch", "call:re.search") and len(a) >= 2:
         import re as _re
         try:
